@@ -191,8 +191,62 @@ func c15NonTrivial(x *m.XR) bool {
 	return len(kinds) >= 2 && variableNotLast
 }
 
+// c15LargeBlocks: blocks whose size in octets reaches or passes 2^16 (block length field 16383
+// and above, up to 65533, the largest a packet holds) of every variable-length kind, alone and
+// with typed neighbours on both sides: a block length kept in too few bits, or multiplied by four
+// in 16 bits, makes such a block swallow or expose its neighbours.
+func c15LargeBlocks() []c15Case {
+	var out []c15Case
+	rrt := m.XRBlock{BT: m.XRRRT, NTP: 0x0102030405060708}
+	dl := m.XRBlock{BT: m.XRDLRR, Subs: []m.DLRRSub{{SSRC: 0x11, LastRR: 0x22, DLRR: 0x33}}}
+	for _, L := range []int{16382, 16383, 16384, 16385, 32767, 32768, 49152, 65533} {
+		for kind := 0; kind < 5; kind++ {
+			var b m.XRBlock
+			switch kind {
+			case 0, 1:
+				b = m.XRBlock{BT: uint8(m.XRLossRLE + kind), T: 5, SSRC: 0xa1a2a3a4, BeginSeq: 7, EndSeq: 9, Chunks: make([]uint16, 2*L-4)}
+				for i := range b.Chunks {
+					b.Chunks[i] = uint16(i*40503 + 1)
+				}
+			case 2:
+				b = m.XRBlock{BT: m.XRPRT, T: 9, SSRC: 0xb1b2b3b4, BeginSeq: 1, EndSeq: 2, Times: make([]uint32, L-2)}
+				for i := range b.Times {
+					b.Times[i] = uint32(i)*2654435761 + 1
+				}
+			case 3:
+				b = m.XRBlock{BT: m.XRDLRR, Subs: make([]m.DLRRSub, (L+2)/3)}
+				for i := range b.Subs {
+					b.Subs[i] = m.DLRRSub{SSRC: uint32(i) + 1, LastRR: uint32(i) * 3, DLRR: ^uint32(i)}
+				}
+			default:
+				b = m.XRBlock{BT: 99, TypeSpecific: 0xA5, Body: make([]byte, 4*L)}
+				for i := range b.Body {
+					b.Body[i] = byte(i*7 + 1)
+				}
+			}
+			if L <= 65533 && !(kind == 3 && L == 65533) {
+				out = append(out, c15Case{X: m.XR{Sender: 0xdeadbeef, Blocks: []m.XRBlock{b}}})
+			}
+			if L < 65000 {
+				out = append(out, c15Case{X: m.XR{Sender: 0xdeadbeef, Blocks: []m.XRBlock{rrt, b, dl}}})
+			}
+		}
+	}
+	return out
+}
+
 func TestC15(t *testing.T) {
 	defer harness.Uncaught(t)
+	if harness.Cfg.Shard == 0 {
+		ls := c15LargeBlocks()
+		for _, c := range ls {
+			subC15.Check(t, c)
+			harness.Class("large-block:bt:"+xrTypeOf(c.X.Blocks[len(c.X.Blocks)/2].BT), 1)
+		}
+		harness.Eval(subC15.Name+"/large-blocks", int64(len(ls)))
+		harness.NonTrivialDistinct(int64(len(ls)))
+		harness.Exhaustive(subC15.Name+"/large-blocks", "5 variable-length block kinds x block length 16382..16385, 32767, 32768, 49152, 65533 x {alone, between a receiver reference time and a DLRR block}")
+	}
 	maxBlocks := 8
 	if harness.Thorough() {
 		maxBlocks = 40
